@@ -2,10 +2,11 @@
    Only theorem statements; proofs are in Proofs/WriterFacts.v.  Model: Model/Writer.v (the
    document as a tree of elements, elem_text / doc_text = to_text, the public API as a state
    machine wstep / wrun over handles).  lines x = x split at newlines. *)
-From Coq Require Import String List.
+From Coq Require Import String List ZArith.
 From CMinx Require Import Base.Str Model.Writer Gen.SourceLiterals Proofs.WriterFacts
      Proofs.LiteralsMatch
-     Base.PySem Gen.PySource Proofs.SourceMatch.
+     Base.PySem Gen.PySource Proofs.SourceMatch
+     Base.PyWriterSem Gen.PyWriterSource Proofs.WriterSourceMatch.
 Import ListNotations.
 
 (* serialising does not change the document and is repeatable, whatever is serialised in between *)
@@ -177,3 +178,36 @@ Theorem C20_option_matches_source :
   forall d n v, option_text d (n, v) = PySource.Option_build_option_string n v (indent d).
 Proof. exact option_text_matches_source. Qed.
 Print Assumptions C20_option_matches_source.
+
+(* pywriter2coq: every API method of RSTWriter / Directive as regenerated from rstwriter.py on every run equals the model step, for every history *)
+Theorem C20_init_matches : forall st title,
+  eff st <> [] -> RSTWriter_new title 0%Z st 0%Z = Some (conc st (winit title)).
+Proof. exact init_matches. Qed.
+Print Assumptions C20_init_matches.
+
+Theorem C20_py_step_matches : forall st w o,
+  eff st <> [] -> py_step (conc st w) o = model_step st w o.
+Proof. exact py_step_matches. Qed.
+Print Assumptions C20_py_step_matches.
+
+Theorem C20_py_run_matches : forall st ops w,
+  eff st <> [] -> py_run (conc st w) ops = option_map (conc st) (model_run st w ops).
+Proof. exact py_run_matches. Qed.
+Print Assumptions C20_py_run_matches.
+
+Theorem C20_history_to_text_matches : forall st ops w,
+  eff st <> [] ->
+  py_bind (py_run (conc st w) ops) RSTWriter_to_text
+  = py_bind (model_run st w ops)
+      (fun w' => Some (doc_text (eff st) (w_title w') (w_body w'))).
+Proof. exact history_to_text_matches. Qed.
+Print Assumptions C20_history_to_text_matches.
+
+Theorem C20_history_to_text_wrun : forall st ops title,
+  eff st <> [] ->
+  forallb no_error (snd (wrun (eff st) (winit title) ops)) = true ->
+  py_bind (RSTWriter_new title 0%Z st 0%Z) (fun t => py_bind (py_run t ops) RSTWriter_to_text)
+  = (let w' := fst (wrun (eff st) (winit title) ops) in
+     Some (doc_text (eff st) (w_title w') (w_body w'))).
+Proof. exact history_to_text_wrun. Qed.
+Print Assumptions C20_history_to_text_wrun.
